@@ -30,7 +30,7 @@ func vC38_gcBuild(K int) [3]*GCounter {
 	}
 	for k := 0; k < K; k++ {
 		r := k % 3
-		var c [5]*GCounter
+		var c [7]*GCounter
 		c[0] = rep[r]
 		c[1] = rep[r].Increment(vC38_nodes[r], vNondetUint64("inc"))
 		c[2] = rep[r].Merge(rep[(r+1)%3]).(*GCounter)
@@ -41,7 +41,7 @@ func vC38_gcBuild(K int) [3]*GCounter {
 }
 
 // faithful copy of candidate c[op] into a fresh object; node ids outside {a,b,c} never occur
-func vC38_gcPick(op int, n int, c [5]*GCounter) *GCounter {
+func vC38_gcPick(op int, n int, c [7]*GCounter) *GCounter {
 	out := &GCounter{state: make(map[string]uint64), delta: make(map[string]uint64)}
 	for i := 0; i < 3; i++ {
 		nd := vC38_nodes[i]
@@ -127,7 +127,7 @@ func vC38_pnBuild(K int) [3]*PNCounter {
 		c[3] = rep[r].Merge(rep[(r+1)%3]).(*PNCounter)
 		c[4] = rep[r].Merge(rep[(r+2)%3]).(*PNCounter)
 		op := vChoose("op", 5)
-		var ci, cd [5]*GCounter
+		var ci, cd [7]*GCounter
 		for j := 0; j < 5; j++ {
 			ci[j], cd[j] = c[j].increments, c[j].decrements
 		}
@@ -556,7 +556,6 @@ func vC38_mvregister() {
 	vCover("end")
 }
 
-func vC38_ormap() {}
 
 // ---------------------------------------------------------------- ORSet
 
@@ -725,6 +724,143 @@ func vC38_orset() {
 	}
 	if sx.n[0] >= 2 {
 		vCover("element-with-two-dots")
+	}
+	vCover("end")
+}
+
+// ---------------------------------------------------------------- ORMap (values: GCounter)
+
+var vC38_emptyGC = NewGCounter()
+
+func vC38_omValue(m *ORMap, el any) (*GCounter, bool) {
+	v, ok := m.values[el]
+	g, isGC := v.(*GCounter)
+	if !isGC {
+		g = vC38_emptyGC
+	}
+	return g, ok
+}
+
+func vC38_omPick(op, n int, c [7]*ORMap) *ORMap {
+	var ks [7]*ORSet
+	var dirty [7]bool
+	for j := 0; j < n; j++ {
+		ks[j], dirty[j] = c[j].keys, c[j].dirty
+	}
+	out := &ORMap{keys: vC38_osPick(op, n, ks), values: make(map[any]ReplicatedData), dirty: vC38_pickBool(op, n, dirty)}
+	for e := 0; e < 2; e++ {
+		el := vC38_elems[e]
+		var g [7]*GCounter
+		var ok [7]bool
+		for j := 0; j < n; j++ {
+			g[j], ok[j] = vC38_omValue(c[j], el)
+		}
+		if vC38_pickBool(op, n, ok) {
+			out.values[el] = vC38_gcPick(op, n, g)
+		}
+	}
+	return out
+}
+
+func vC38_omBuild(K int) [3]*ORMap {
+	var rep [3]*ORMap
+	for i := 0; i < 3; i++ {
+		rep[i] = NewORMap()
+	}
+	for k := 0; k < K; k++ {
+		r := k % 3
+		val := NewGCounter().Increment(vC38_nodes[r], vNondetUint64("inc"))
+		var c [7]*ORMap
+		c[0] = rep[r]
+		c[1] = rep[r].Set(vC38_nodes[r], vC38_elems[0], val)
+		c[2] = rep[r].Set(vC38_nodes[r], vC38_elems[1], val)
+		c[3] = rep[r].Remove(vC38_elems[0])
+		c[4] = rep[r].Remove(vC38_elems[1])
+		c[5] = rep[r].Merge(rep[(r+1)%3]).(*ORMap)
+		c[6] = rep[r].Merge(rep[(r+2)%3]).(*ORMap)
+		rep[r] = vC38_omPick(vChoose("op", 7), 7, c)
+	}
+	return rep
+}
+
+type vC38_omS struct {
+	keys vC38_osS
+	has  [2]bool
+	val  [2][3]uint64
+}
+
+func vC38_omSnap(m *ORMap) vC38_omS {
+	var s vC38_omS
+	s.keys = vC38_osSnap(m.keys)
+	for e := 0; e < 2; e++ {
+		g, ok := vC38_omValue(m, vC38_elems[e])
+		s.has[e], s.val[e] = ok, vC38_gcSnap(g)
+	}
+	return s
+}
+
+// observable content: which keys are present (Get) and their values
+type vC38_omObs struct {
+	has [2]bool
+	val [2][3]uint64
+}
+
+func vC38_omObserve(m *ORMap) vC38_omObs {
+	var o vC38_omObs
+	for e := 0; e < 2; e++ {
+		v, ok := m.Get(vC38_elems[e])
+		o.has[e] = ok
+		if ok {
+			o.val[e] = vC38_gcSnap(v.(*GCounter))
+		}
+	}
+	return o
+}
+
+func vC38_ormap() {
+	rep := vC38_omBuild(vCase("slots"))
+	x, y, z := rep[0], rep[1], rep[2]
+	sx, sy, sz := vC38_omSnap(x), vC38_omSnap(y), vC38_omSnap(z)
+	ox := vC38_omObserve(x)
+	xy := x.Merge(y).(*ORMap)
+	yx := y.Merge(x).(*ORMap)
+	vAssert(vC38_omSnap(x) == sx && vC38_omSnap(y) == sy, "Merge leaves both inputs unchanged")
+	oxy := vC38_omObserve(xy)
+	vAssert(vC38_osEq(xy.keys, yx.keys), "merge is commutative (key dots, clock)")
+	vAssert(oxy == vC38_omObserve(yx), "merge is commutative (keys and values)")
+	vAssert(vC38_osLeq(x.keys, xy.keys) && vC38_osLeq(y.keys, xy.keys), "merged key set is an upper bound of both key sets")
+	for e := 0; e < 2; e++ {
+		if ox.has[e] && oxy.has[e] {
+			for i := 0; i < 3; i++ {
+				vAssert(oxy.val[e][i] >= ox.val[e][i], "the value of a key that survives merge never shrinks")
+			}
+		}
+		vAssert(oxy.has[e] == xy.keys.Contains(vC38_elems[e]), "every key of the merged key set has a value")
+	}
+	l := xy.Merge(z).(*ORMap)
+	r := x.Merge(y.Merge(z)).(*ORMap)
+	vAssert(vC38_osEq(l.keys, r.keys), "merge is associative (key dots, clock)")
+	vAssert(vC38_omObserve(l) == vC38_omObserve(r), "merge is associative (keys and values)")
+	vAssert(vC38_omSnap(z) == sz, "Merge leaves its argument unchanged")
+	xx := x.Merge(x).(*ORMap)
+	vAssert(vC38_osEq(xx.keys, x.keys) && vC38_omObserve(xx) == ox, "merge is idempotent")
+	c := x.Clone().(*ORMap)
+	vAssert(vC38_omSnap(c) == sx, "Clone yields an equal map")
+	for e := 0; e < 2; e++ {
+		if g, ok := vC38_omValue(c, vC38_elems[e]); ok {
+			g.state["a"] = g.state["a"] + 1
+		}
+		if ds := c.keys.entries[vC38_elems[e]]; len(ds) > 0 {
+			ds[0].counter += 7
+		}
+	}
+	c.keys.clock["b"] = sx.keys.clock[1] + 1
+	vAssert(vC38_omSnap(x) == sx, "Clone shares no storage with the original")
+	if ox.has[0] && vC38_omObserve(y).has[0] && oxy.val[0][0] > 0 && oxy.val[0][1] > 0 {
+		vCover("same-key-written-on-two-nodes")
+	}
+	if ox.has[0] && !oxy.has[0] {
+		vCover("key-removed-by-merge")
 	}
 	vCover("end")
 }
